@@ -204,7 +204,17 @@ def leg_interleave(ns, res, spec):
 def observe_case(ns, case, on_step=None, who=''):
     o = boundary.run_py(ns, case['query_text'], [list(r) for r in case['A']], None if case['B'] is None else [list(r) for r in case['B']], case['a_names'], case['b_names'],
                         on_step=on_step, who=who, scribble=False, mutating_sink=False, init_code=case.get('init_code', ''))
-    out = {'rows': json.loads(json.dumps(o.rows)), 'header': o.header, 'warnings': o.warnings, 'error': o.error, 'error_msg': (o.error_msg or '')[:300]}
+    def plain(v):
+        if isinstance(v, bool) or v is None or isinstance(v, str):
+            return v
+        if isinstance(v, int):
+            return v if -10 ** 18 < v < 10 ** 18 else 'int:' + hex(v)      # decimal conversion of huge integers is capped (sys.get_int_max_str_digits)
+        if isinstance(v, float):
+            return v if v == v and v not in (float('inf'), float('-inf')) else 'float:' + repr(v)
+        if isinstance(v, (list, tuple)):
+            return [plain(x) for x in v]
+        return repr(v)
+    out = {'rows': json.loads(json.dumps([plain(r) for r in o.rows])), 'header': o.header, 'warnings': o.warnings, 'error': o.error, 'error_msg': (o.error_msg or '')[:300]}
     if on_step is None:
         # second sink: the CSV writer (it has state of its own)
         import io
@@ -292,6 +302,32 @@ def generated_cases(rng, n, base):
     return cases
 
 
+# Queries whose RESULT is interpreter-wide state: as queries they fall under the property like any other (same result alone and after any history), and
+# they make a leak of such state by another query - which no table-valued query might ever show - visible at once.
+ENV_READER = ("select __import__('sys').get_int_max_str_digits(), __import__('sys').getrecursionlimit(), __import__('sys').getswitchinterval(), __import__('decimal').getcontext().prec, "
+              "__import__('locale').setlocale(0), __import__('sys').getdefaultencoding(), __import__('locale').getpreferredencoding(False), __import__('io').DEFAULT_BUFFER_SIZE, "
+              "__import__('os').environ.get('TZ'), __import__('re').compile('a').flags, __import__('sys').float_repr_style, len(__import__('sys').path_hooks), __import__('csv').field_size_limit()")
+# Queries that put an unusual load on the engine and the CSV writer (some fail half-way, after output was produced): huge integers, huge cells, wide records
+ENV_STRESSORS = [
+    ('select a1, 10 ** 5000 // int(a1)', [['7'], ['x'], ['3']]),
+    ('select a1, 10 ** 5000 // int(a1)', [['7'], ['3']]),
+    ('select MAX(a1), SUM(a1)', [['9' * 5000], ['1']]),
+    ('select int(a1) % 97, len(a1)', [['12345'], ['7' * 5000]]),
+    ('select len(a1), a1.upper()[:3]', [['x' * 200000], ['y']]),
+    ('select NF, a1, a[NF]', [[str(i) for i in range(3000)], ['only']]),
+    ('select a1, float(a1) * 1e308 * 10, str(float(a1) / 3)', [['1'], ['2.5'], ['nan']]),
+    ('update a1 = 10 ** 4400', [['1'], ['2']]),
+    ('select a1 order by int(a1) desc', [['3'], ['10' * 3000], ['x']]),
+]
+
+
+def environment_cases():
+    out = [{'query_text': ENV_READER, 'A': [['r']], 'B': None, 'a_names': None, 'b_names': None, 'env': 'reader'}]
+    for q, A in ENV_STRESSORS:
+        out.append({'query_text': q, 'A': A, 'B': None, 'a_names': None, 'b_names': None, 'env': 'stressor'})
+    return out
+
+
 def diff_keys(got, solo):
     return [k for k in sorted(set(got) | set(solo)) if got.get(k) != solo.get(k)]
 
@@ -299,6 +335,10 @@ def diff_keys(got, solo):
 def leg_generated(ns, res, spec):
     rng = random.Random(spec['seed'] * 4256233 + spec['i'])
     cases = generated_cases(rng, spec['n'], spec['i'] * 100000)
+    envc = environment_cases()
+    # the state reader several times over, so that every shuffled history meets it early, in the middle and late
+    cases += envc + [dict(envc[0]) for _ in range(4)]
+    res.count('environment_reader_and_stressor_cases', len(envc) + 4)
     solo = solo_results(cases)
     res.count('generated_solo_results', len(solo))
     res.count('generated_header_twins', sum(1 for c in cases if 'twin_of' in c))
@@ -797,10 +837,10 @@ def run_shard(spec, res):
 
 def summarize(tier, seed, m):
     return {
-        'rule': '%d scenarios (plain select, like, UNNEST, ORDER BY, DISTINCT COUNT, GROUP BY with all nine aggregates, JOIN, UPDATE with NU, TOP, syntax error, parsing error, runtime error at record 2, aggregate misuse, double UNNEST, and two pairs of identical query texts over differently ordered headers); solo results from one fresh interpreter per scenario; history: every sequence of length <= 2 plus random sequences of length 3..6 in one process; interleaving: every unordered pair of scenarios (incl. a scenario with itself) in two real threads under the cooperative scheduler, ALL interleavings of the get_record / write / finish steps enumerated by stateless DFS (%s); preemption stress with sys.monitoring LINE yield injection; generated queries (C01-C05 generators, failing variants, and header twins: the same query text over the same data with the columns in another order) whose solo results come from forked children of a query-free interpreter, then run in three shuffled orders through one interpreter (probe sink and CSV writer sink) and pairwise in two threads under seeded random schedules; the JS port sequentially: generated language-neutral queries alone in a fresh node process each vs three shuffled histories (with failing queries interspersed) in one node process; the sqlite front-end with one connection shared by every ordered pair of 15 queries (utf-8 / latin-1 output, 7 of them failing) vs a fresh connection each, and the caller\'s connection settings before / after; the pandas front-end with ONE DataFrame object (and one join frame) serving histories of 3-6 queries while its owner re-labels, permutes, renames, adds, drops and overwrites columns in place between them, each result compared with the same query over a newly built equal frame in a forked child that ran no query; the front-ends side by side: 8 threads running query_csv (five dialects / encodings, JOIN files, failing queries), query_pandas_dataframe and query_sqlite_to_csv under statement-level yield injection in the engine, CSV reader / writer, splitter and adapters, each result compared with a forked child that ran only that task. distinct_nontrivial = distinct step traces realised + distinct history sequences.' % (
+        'rule': '%d scenarios (plain select, like, UNNEST, ORDER BY, DISTINCT COUNT, GROUP BY with all nine aggregates, JOIN, UPDATE with NU, TOP, syntax error, parsing error, runtime error at record 2, aggregate misuse, double UNNEST, and two pairs of identical query texts over differently ordered headers); solo results from one fresh interpreter per scenario; history: every sequence of length <= 2 plus random sequences of length 3..6 in one process; interleaving: every unordered pair of scenarios (incl. a scenario with itself) in two real threads under the cooperative scheduler, ALL interleavings of the get_record / write / finish steps enumerated by stateless DFS (%s); preemption stress with sys.monitoring LINE yield injection; generated queries (C01-C05 generators, failing variants, and header twins: the same query text over the same data with the columns in another order) whose solo results come from forked children of a query-free interpreter, together with a state-reading query (its result is interpreter-wide state: int/str digit limit, recursion limit, switch interval, decimal precision, locale, encodings, buffer size, TZ, csv field limit) and nine stress queries (5000-digit integers written before a failure, 200000-character cells, 3000-column records, float overflow), then run in three shuffled orders through one interpreter (probe sink and CSV writer sink) and pairwise in two threads under seeded random schedules; the JS port sequentially: generated language-neutral queries alone in a fresh node process each vs three shuffled histories (with failing queries interspersed) in one node process; the sqlite front-end with one connection shared by every ordered pair of 15 queries (utf-8 / latin-1 output, 7 of them failing) vs a fresh connection each, and the caller\'s connection settings before / after; the pandas front-end with ONE DataFrame object (and one join frame) serving histories of 3-6 queries while its owner re-labels, permutes, renames, adds, drops and overwrites columns in place between them, each result compared with the same query over a newly built equal frame in a forked child that ran no query; the front-ends side by side: 8 threads running query_csv (five dialects / encodings, JOIN files, failing queries), query_pandas_dataframe and query_sqlite_to_csv under statement-level yield injection in the engine, CSV reader / writer, splitter and adapters, each result compared with a forked child that ran only that task. distinct_nontrivial = distinct step traces realised + distinct history sequences.' % (
             len(SCENARIOS), '2-record tables' if tier == 'quick' else '2- and 3-record tables for all pairs (3-record pairs capped at 20000 schedules), 4-record tables for 6 selected pairs'),
         'exhaustive': m['counters'].get('pairs_truncated', 0) == 0,
-        'required': ['frontend_thread_runs', 'frontend_solo_results_from_forked_children', 'frontend_solo_failing', 'frontend_injected_yields', 'pandas_history_runs', 'pandas_history_solo_results_from_forked_children', 'pandas_history_solo_failing', 'pandas_history_op:relabel', 'pandas_history_op:add', 'sqlite_history_runs', 'sqlite_history_solo_failing', 'js_solo_results_from_fresh_node_processes', 'js_history_runs', 'generated_solo_results', 'generated_header_twins', 'generated_history_runs', 'generated_interleaved_schedules', 'generated_interleaved_handoffs', 'schedules', 'pairs_enumerated_completely', 'handoffs', 'history_runs', 'preemption_runs', 'line_events_in_main_loop', 'injected_yields'],
+        'required': ['environment_reader_and_stressor_cases', 'frontend_thread_runs', 'frontend_solo_results_from_forked_children', 'frontend_solo_failing', 'frontend_injected_yields', 'pandas_history_runs', 'pandas_history_solo_results_from_forked_children', 'pandas_history_solo_failing', 'pandas_history_op:relabel', 'pandas_history_op:add', 'sqlite_history_runs', 'sqlite_history_solo_failing', 'js_solo_results_from_fresh_node_processes', 'js_history_runs', 'generated_solo_results', 'generated_header_twins', 'generated_history_runs', 'generated_interleaved_schedules', 'generated_interleaved_handoffs', 'schedules', 'pairs_enumerated_completely', 'handoffs', 'history_runs', 'preemption_runs', 'line_events_in_main_loop', 'injected_yields'],
         'assumptions': ['exhaustive at the granularity of iterator / writer calls (what the statement names); statement-level preemption is sampled; bytecode-level is not explored', 'a change of module-level state alone is not a refutation (advisory notes only)'],
     }
 
